@@ -391,7 +391,7 @@ theorem optRec_ok {n : Nat} (card : Arr → Nat) : ∀ m, RecOk n (optRec card m
         unfold root; rw [h2]
         exact ev_one bdd v
       refine ⟨pc, [pc], ?_, fun _ => rfl, ?_, ?_⟩
-      · simp [optRec, h1, h2]
+      · simp [optRec, h2]
       · intro v; simp [dnfFn, htrue v]
       · intro c hc x b hg
         rw [List.mem_singleton] at hc; subst hc
@@ -443,7 +443,7 @@ theorem toOptimizedDnfWith_sem {n : Nat} (card : Arr → Nat) {b : Arr} {f : (Na
       rw [← hev v]
       unfold root; rw [h2]
       exact ev_one b v
-    refine ⟨[[]], by simp [h1, h2], ?_, ?_⟩
+    refine ⟨[[]], by simp [h2], ?_, ?_⟩
     · intro c hc x bb hg
       rw [List.mem_singleton] at hc; subst hc
       rw [get_nil] at hg; cases hg
